@@ -49,7 +49,9 @@ def state_case(rep, spec, index):
     fc.precision = gen.loguniform(rng, 1e-7, 1e-3)
     case = dict(fc.describe(), index=index)
     pv, T, x, tp, pp, prec, model = fc.pv, fc.t_feed, fc.comp, fc.tp, fc.pp, fc.precision, fc.model
-    st, j = _guard(lambda: pv.calculate_partial_fluxes(T, x, prec, tp, pp, calculation_type=model))
+    with guards.tap() as inner:
+        st, j = _guard(lambda: pv.calculate_partial_fluxes(T, x, prec, tp, pp, calculation_type=model))
+    inner = list(inner)
     rep.case(case, nontrivial=(st == "ok" and (model == "UNIQUAC" or fc.mode != "V")), cls=f"state|{model}|{fc.mode}")
     rep.count("standalone_" + st)
     if st != "ok":
@@ -61,6 +63,21 @@ def state_case(rep, spec, index):
         # legitimately refuse to build one, there is nothing derived to compare
         rep.count("standalone_fluxes_without_valid_composition_skipped")
         return
+    # the selected activity model is honoured: the fluxes obey the flux equations of THAT model at the permeate
+    # composition they were evaluated at (all entry points share one routine, so agreement alone cannot show this)
+    if inner and all(math.isfinite(v) for v in j):
+        from . import c02
+
+        ystar = inner[-1][0].p
+        ok_any = False
+        det = {}
+        for basis in (("weight", "molar") if pp is not None else ("weight",)):
+            ref, pf, perm = c02.ref_fluxes(fc, ystar, fc.p1.value, fc.p2.value, basis)
+            res = [abs(j[i] - float(ref[i])) for i in (0, 1)]
+            tol = [64 * EPS * (fc.p1.value, fc.p2.value)[i] * max(abs(float(pf[i])), abs(float(perm[i]))) for i in (0, 1)]
+            det[basis] = {"ref": [float(ref[0]), float(ref[1])], "residual": res}
+            ok_any = ok_any or (res[0] <= tol[0] and res[1] <= tol[1])
+        rep.require("the selected activity model is honoured on both sides of the membrane", ok_any, case, dict(det, fluxes=j, ystar=ystar))
     # the same object asked about the same state with the OTHER model in between: both answers must equal those of
     # fresh objects (the selected activity model is honoured, whatever was asked before)
     from pyvaporation.pervaporation import Pervaporation
